@@ -181,7 +181,9 @@ class LabelProbabilityInjector(Injector):
             return self._postprocess(ret)
 
         # if classes skipped, ensure probability distribution adds to 1
-        p_leftover = (1 - sum(self._p_distribution)) / len(self._p_distribution)
+        p_leftover = max(0.0, 1 - sum(self._p_distribution)) / len(
+            self._p_distribution
+        )
         self._p_distribution = [p + p_leftover for p in self._p_distribution]
 
         # shuffled sample over window, with replacement, with weights
